@@ -1,7 +1,8 @@
 """C47 A connection is usable only after a successful handshake.
 
 Every sequence of server replies (bounded length) to the handshake of a real Connection is played
-against every (protocol version, authenticator kind, compression setting); each handshake request
+against every (protocol version, authenticator kind, compression setting, set of locally installed
+compression algorithms); each handshake request
 is held by the server, which reads what the driver pushed with the independent wire codec and
 answers from the sequence.  Oracle = the clauses of the C47 statement.
 """
@@ -12,8 +13,9 @@ META = {
     'level': 'model_checking',
     'engine': 'E',
     'technique': 'exhaustive enumeration of bounded server reply sequences x configurations on the real Connection handshake handlers',
-    'text': 'For protocol versions {1,2,4,5,DSE_V2} x authenticator {none, PlainTextAuthenticator, v1 credentials dict} x '
-            'compression {True, False, "lz4", "snappy"} the tree of all reply sequences of length <= 5 (thorough 7) over '
+    'text': 'For protocol versions {1,2,3,4,5,6(beta),DSE_V1,DSE_V2} x authenticator {none, PlainTextAuthenticator, v1 credentials '
+            'dict} x (compression setting, locally installed algorithms) in {True, "lz4", "snappy"} x {{lz4}, {snappy}, {lz4,snappy}} + '
+            '(True, {}) + (False, {lz4,snappy}) the tree of all reply sequences of length <= 5 (thorough 7) over '
             '{SUPPORTED with compression list [], [lz4], [snappy], [lz4,snappy]; READY; AUTHENTICATE; AUTH_CHALLENGE (valid / '
             'unexpected token); AUTH_SUCCESS; ERROR bad-credentials / server-error / protocol-error; undecodable frame; server '
             'disconnect (close()); socket error (defunct(OSError)); EVENT} is explored: each reply answers the oldest handshake '
@@ -23,20 +25,155 @@ META = {
             'AuthenticationFailed exactly for authentication failures (never for other failures); every frame pushed before the '
             'server accepted STARTUP is an uncompressed plain frame; later frames are compressed only with the algorithm announced '
             'in STARTUP, which must be in SUPPORTED and locally available; after acceptance outgoing data are v5 segments of the '
-            'negotiated form iff the version is v5.  A probe request is sent on every ready connection.',
-    'note': 'VConnection.close() follows the contract shared by the asyncio, twisted, gevent and eventlet reactors.  Only lz4 is '
-            'locally available (stub); "snappy" as a setting/offer exercises the not-available paths.  Any exception raised by '
+            'negotiated form iff the version is v5/v6 (never for v1-v4, DSE_V1, DSE_V2); the lz4 segment form is used iff STARTUP announced '
+            'lz4.  A probe request is sent on every ready connection and must go out readable in that form.',
+    'note': 'VConnection.close() follows the contract shared by the asyncio, twisted, gevent and eventlet reactors.  lz4 is the '
+            'pure-python stub of /verif/stubs; snappy is a stand-in codec writing valid literal-only snappy streams; the set of '
+            'locally installed algorithms is what cassandra.connection.locally_supported_compressions (and segment_codec_lz4, None '
+            'without lz4, as after a failed import) holds during the run.  The server identifies the algorithm of a compressed frame by '
+            'decoding it with its own lz4 / snappy readers.  Any exception raised by '
             'Connection.factory other than AuthenticationFailed counts as a connection error.',
     'design_ref': 'C47',
 }
 
-VERSIONS = (1, 2, 4, 5, 0x42)
+VERSIONS = (1, 2, 3, 4, 5, 6, 0x41, 0x42)
+VNAMES = {0x41: 'dse1', 0x42: 'dse2'}
 AUTHS = ('none', 'sasl', 'dict')
-COMPRESSIONS = (True, False, 'lz4', 'snappy')
+LOCALS = (('lz4',), ('snappy',), ('lz4', 'snappy'))
+# (compression setting, locally installed algorithms)
+COMP_LOCAL = tuple((c, l) for c in (True, 'lz4', 'snappy') for l in LOCALS) + ((True, ()), (False, ('lz4', 'snappy')))
 SUPS = {'SUP[]': [], 'SUP[lz4]': ['lz4'], 'SUP[snappy]': ['snappy'], 'SUP[lz4,snappy]': ['lz4', 'snappy']}
 REPLIES = tuple(SUPS) + ('READY', 'AUTHENTICATE', 'CHALLENGE', 'CHALLENGE_BAD', 'AUTH_SUCCESS', 'ERR_BADCRED', 'ERR_SERVER',
                          'ERR_PROTO', 'GARBAGE', 'DISCONNECT', 'SOCKERR', 'EVENT')
 OOB = ('DISCONNECT', 'SOCKERR', 'EVENT')
+
+
+# ------------------------------------------------------------------ snappy stand-in (driver side) and reader (server side)
+def snappy_compress(data):
+    """valid raw snappy stream made of literal elements only (what `snappy.compress` may legally emit)"""
+    data = bytes(data)
+    out = bytearray()
+    n = len(data)
+    while True:                      # preamble: uncompressed length as a little-endian base-128 varint
+        if n < 0x80:
+            out.append(n)
+            break
+        out.append(0x80 | (n & 0x7f))
+        n >>= 7
+    for i in range(0, len(data), 65536):
+        chunk = data[i:i + 65536]
+        m = len(chunk) - 1
+        if m < 60:
+            out.append(m << 2)
+        elif m < 256:
+            out += bytes([60 << 2, m])
+        else:
+            out += bytes([61 << 2, m & 0xff, m >> 8])
+        out += chunk
+    return bytes(out)
+
+
+def snappy_read(src):
+    """independent reader of the raw snappy format (literals and the three copy elements); raises ValueError"""
+    src = bytes(src)
+    size, shift, i = 0, 0, 0
+    while True:
+        if i >= len(src) or shift > 28:
+            raise ValueError('bad preamble')
+        b = src[i]
+        i += 1
+        size |= (b & 0x7f) << shift
+        shift += 7
+        if not b & 0x80:
+            break
+    out = bytearray()
+    while i < len(src):
+        tag = src[i]
+        i += 1
+        kind = tag & 3
+        if kind == 0:
+            n = tag >> 2
+            if n >= 60:
+                k = n - 59
+                if i + k > len(src):
+                    raise ValueError('truncated literal length')
+                n = int.from_bytes(src[i:i + k], 'little')
+                i += k
+            n += 1
+            if i + n > len(src):
+                raise ValueError('literal overruns input')
+            out += src[i:i + n]
+            i += n
+            continue
+        if kind == 1:
+            if i + 1 > len(src):
+                raise ValueError('truncated copy')
+            n, off = ((tag >> 2) & 7) + 4, ((tag >> 5) << 8) | src[i]
+            i += 1
+        else:
+            k = 2 if kind == 2 else 4
+            if i + k > len(src):
+                raise ValueError('truncated copy')
+            n, off = (tag >> 2) + 1, int.from_bytes(src[i:i + k], 'little')
+            i += k
+        if off == 0 or off > len(out):
+            raise ValueError('bad copy offset')
+        for _ in range(n):
+            out.append(out[-off])
+    if len(out) != size:
+        raise ValueError('decoded %d bytes, declared %d' % (len(out), size))
+    return bytes(out)
+
+
+def lz4_read(body):
+    """frame-level lz4 body: 4-byte big-endian uncompressed length + one lz4 block"""
+    if len(body) < 4:
+        raise ValueError('short lz4 body')
+    return connlib.lz4_block_decompress(body[4:], int.from_bytes(body[:4], 'big'))
+
+
+def selftest():
+    for n in (0, 1, 59, 60, 61, 255, 256, 257, 65535, 65536, 65537, 200000):
+        d = (b'SELECT * FROM ks.tbl \x00\xff' * (n // 23 + 1))[:n]
+        if snappy_read(snappy_compress(d)) != d:
+            raise HarnessError('snappy stand-in does not round-trip %d bytes' % n)
+    # vectors written out from the format description: "aaaaaaaaaa" as literal "a" + copy(offset 1, len 9) in the three copy forms
+    for v in (b'\x0a\x00a' + bytes([((9 - 4) << 2) | 1, 1]), b'\x0a\x00a' + bytes([((9 - 1) << 2) | 2, 1, 0]),
+              b'\x0a\x00a' + bytes([((9 - 1) << 2) | 3, 1, 0, 0, 0])):
+        if snappy_read(v) != b'a' * 10:
+            raise HarnessError('snappy reader fails on vector %r' % (v,))
+    for bad in (b'', b'\x05\x00a', b'\x01\x09a\x00'):
+        try:
+            snappy_read(bad)
+        except ValueError:
+            continue
+        raise HarnessError('snappy reader accepted %r' % (bad,))
+
+
+_SAVED = {}
+
+
+def install_local(local):
+    """make `local` the set of compression libraries the driver finds installed (lz4 first, as the module does)"""
+    import cassandra.connection as cc
+    if not _SAVED:
+        _SAVED['lz4'] = cc.locally_supported_compressions['lz4']
+        _SAVED['codec'] = cc.segment_codec_lz4
+        _SAVED['orig'] = list(cc.locally_supported_compressions.items())
+    cc.locally_supported_compressions.clear()
+    if 'lz4' in local:
+        cc.locally_supported_compressions['lz4'] = _SAVED['lz4']
+    if 'snappy' in local:
+        cc.locally_supported_compressions['snappy'] = (snappy_compress, snappy_read)
+    cc.segment_codec_lz4 = _SAVED['codec'] if 'lz4' in local else None
+
+
+def restore_local():
+    import cassandra.connection as cc
+    if _SAVED:
+        cc.locally_supported_compressions.clear()
+        cc.locally_supported_compressions.update(_SAVED['orig'])
+        cc.segment_codec_lz4 = _SAVED['codec']
 
 
 def make_server():
@@ -81,12 +218,16 @@ def make_server():
                 payload = payload[hs + ln:]
                 fr = {'version': v, 'flags': flags, 'stream': stream, 'op': wire.OPNAMES.get(op, hex(op)), 'compressed': bool(flags & 1)}
                 if flags & 1:
-                    try:
-                        n = int.from_bytes(body[:4], 'big')
-                        body = connlib.lz4_block_decompress(body[4:], n)
-                        fr['algorithm'] = 'lz4'
-                    except Exception as e:
-                        fr['algorithm'] = 'unreadable: %s' % e
+                    reads = {}
+                    for name, rd in (('lz4', lz4_read), ('snappy', snappy_read)):
+                        try:
+                            reads[name] = rd(body)
+                        except Exception:
+                            pass
+                    if len(reads) == 1:
+                        (fr['algorithm'], body), = reads.items()
+                    else:
+                        fr['algorithm'] = 'unreadable' if not reads else 'ambiguous'
                         body = None
                 if body is not None:
                     try:
@@ -128,7 +269,9 @@ class Run(object):
     """one reply sequence, played while the real Connection.factory waits for the handshake"""
     def __init__(self, cfg, seq):
         from vt.world.vworld import World, VConnection
-        self.version, self.auth, self.compression = cfg
+        self.version, self.auth, self.compression, self.local = cfg
+        self.local = tuple(self.local)
+        install_local(self.local)
         self.srv = make_server()
         self.w = World(self.srv)
         self.w.__enter__()
@@ -148,8 +291,9 @@ class Run(object):
             for r in tuple(seq) + (None,):
                 self.srv.outbox.append((_Step(self, r), b''))
             try:
+                kw = {'allow_beta_protocol_version': True} if self.version == 6 else {}
                 self.returned = VConnection.factory('10.0.0.1', 5.0, protocol_version=self.version, authenticator=authn,
-                                                    compression=self.compression)
+                                                    compression=self.compression, **kw)
             except Exception as e:
                 self.exc = e
             except _HarnessBug as e:
@@ -164,7 +308,7 @@ class Run(object):
             if self.snapshot is None:
                 self.snapshot = self.observe()
         except BaseException:
-            self.w.__exit__()
+            self.close()
             raise
 
     def observe(self):
@@ -173,7 +317,10 @@ class Run(object):
                 'last_error': c.last_error, 'pending': tuple(p.req['op'] for p in self.srv.pending if not p.answered)}
 
     def close(self):
-        self.w.__exit__()
+        try:
+            self.w.__exit__()
+        finally:
+            restore_local()
 
     # -- observation (of the state in which the reply sequence left the connection)
     def failed(self):
@@ -263,13 +410,17 @@ def local_algorithms():
     return set(cc.locally_supported_compressions.keys())
 
 
+def case_of(run, seq):
+    return {'version': run.version, 'auth': run.auth, 'compression': run.compression, 'local': list(run.local), 'replies': list(seq)}
+
+
 def judge(run, part, cfg, seq):
     """all clauses, evaluated in the state reached by seq"""
     from cassandra import AuthenticationFailed
     conn, st = run.conn, run.conn.server_state
     v = run.version
-    case = {'version': v, 'auth': run.auth, 'compression': run.compression, 'replies': list(seq)}
-    cfgs = 'v%s' % ('dse2' if v == 0x42 else v)
+    case = case_of(run, seq)
+    cfgs = 'v%s' % VNAMES.get(v, v)
 
     def viol(fp, what):
         part.violation(fp, '%s; case %r' % (what, case), case)
@@ -311,7 +462,7 @@ def judge(run, part, cfg, seq):
     # (C) + (S) everything the driver pushed
     from vt.world import wire
     acc = st['accepted_at']
-    local = local_algorithms()
+    local = set(run.local)
     startup = None
     for rec in st['out']:
         before = acc is None or rec['index'] < acc
@@ -357,7 +508,7 @@ def judge(run, part, cfg, seq):
 
 def canon(run):
     conn, st, snap = run.conn, run.conn.server_state, run.snapshot
-    return (run.version, run.auth, run.compression, snap['closed'], snap['defunct'], snap['event'],
+    return (run.version, run.auth, run.compression, run.local, snap['closed'], snap['defunct'], snap['event'],
             type(snap['last_error']).__name__, snap['pending'], bool(conn.compressor),
             conn._is_checksumming_enabled, st['accepted_at'] is not None, st['seg'], tuple(st['sup'] or ()))
 
@@ -374,14 +525,26 @@ def probe(run, part, cfg, seq):
     with conn.lock:
         rid = conn.get_request_id()
     q = 'SELECT * FROM ks.tbl WHERE k = 0 AND c = 0 ' * 4
-    conn.send_msg(QueryMessage(q, 1), rid, got.append)
+    case = dict(case_of(run, seq), probe=True)
+    cfgs = 'v%s' % VNAMES.get(run.version, run.version)
+    npush = len(conn.server_state['out'])
+    try:
+        conn.send_msg(QueryMessage(q, 1), rid, got.append)
+    except Exception as e:
+        part.violation('C47/ready-but-cannot-send/%s/%s' % (type(e).__name__, cfgs),
+                       'the connection was reported ready but sending a request on it raises %r; case %r' % (e, case), case)
+        return
+    if len(conn.server_state['out']) != npush + 1:
+        part.violation('C47/probe-not-pushed/%s' % cfgs, 'send_msg on the ready connection pushed %d units; case %r'
+                       % (len(conn.server_state['out']) - npush, case), case)
+        return
     last = conn.server_state['out'][-1]
     fr = last['frames'][-1] if last['frames'] else {}
     if fr.get('op') != 'QUERY' or fr.get('query') != q:
-        part.violation('C47/probe-unreadable/v%s' % run.version, 'probe QUERY arrived as %r' % (fr,),
-                       {'version': run.version, 'auth': run.auth, 'compression': run.compression, 'replies': list(seq), 'probe': True})
+        part.violation('C47/probe-unreadable/%s' % cfgs, 'probe QUERY arrived as %r (push form %s); case %r' % (fr, last['form'], case), case)
     comp = fr.get('compressed') or last['form'] == 'segments-lz4'
-    part.outcome(('ready', run.version, run.auth, repr(run.compression), 'probe-compressed' if comp else 'probe-plain', last['form']))
+    part.outcome(('ready', run.version, run.auth, repr(run.compression), '+'.join(run.local) or 'none',
+                  'probe-compressed' if comp else 'probe-plain', fr.get('algorithm', '-'), last['form']))
     if comp:
         part.count('compressed_probes')
 
@@ -414,7 +577,7 @@ def explore_cfg(item):
                 if any(r in ('CHALLENGE', 'AUTHENTICATE', 'EVENT') for r in seq):
                     part.count('distinct_nontrivial')      # every (configuration, sequence) is visited once
                 if len(seq) >= 3:
-                    part.sample({'version': cfg[0], 'auth': cfg[1], 'compression': cfg[2], 'replies': list(seq),
+                    part.sample({'version': cfg[0], 'auth': cfg[1], 'compression': cfg[2], 'local': list(cfg[3]), 'replies': list(seq),
                                  'factory': 'returned' if run.returned is not None else 'raised %r' % (run.exc,)}, limit=1)
             if not term and len(seq) < maxlen:
                 has_pending = bool(run.pending())
@@ -433,20 +596,25 @@ def explore_cfg(item):
 def run(ctx):
     connlib.quiet_driver_logs()
     if local_algorithms() != {'lz4'}:
-        raise HarnessError('expected exactly the lz4 stub to be locally available, got %r' % (local_algorithms(),))
+        raise HarnessError('expected exactly the lz4 stub to be importable by the driver, got %r' % (local_algorithms(),))
+    selftest()
     maxlen = 5 if ctx.quick else 7
-    cfgs = [(v, a, c) for v in VERSIONS for a in AUTHS for c in COMPRESSIONS]
+    cfgs = [(v, a, c, l) for v in VERSIONS for a in AUTHS for c, l in COMP_LOCAL]
     connlib.before_fork()
     for part in ctx.pmap(explore_cfg, [(c, maxlen) for c in ctx.rotate(cfgs)]):
         ctx.merge(part)
-    ctx.cov['rule'] = ('%d configurations (versions %s x authenticators %s x compression %s) x every reply sequence of length <= %d '
+    ctx.cov['rule'] = ('%d configurations (versions %s x authenticators %s x (compression setting, locally installed algorithms) %s) '
+                       'x every reply sequence of length <= %d '
                        'over %d reply kinds (a sequence ends early when the connection is ready or failed); states = distinct '
                        '(configuration, connection flags, outstanding handshake requests, negotiated forms); non-trivial = '
                        'maximal sequences containing an AUTHENTICATE / AUTH_CHALLENGE / EVENT, and ready connections whose probe '
-                       'request went out compressed' % (len(cfgs), list(VERSIONS), list(AUTHS), list(COMPRESSIONS), maxlen, len(REPLIES)))
+                       'request went out compressed' % (len(cfgs), list(VERSIONS), list(AUTHS), [(c, '+'.join(l) or 'none') for c, l in COMP_LOCAL], maxlen, len(REPLIES)))
     ctx.cov['exhaustive'] = True
     ctx.assume('replies answer the oldest outstanding handshake request with its stream id; replies on unknown stream ids are not generated')
     ctx.assume('server replies after STARTUP acceptance on v<=4/DSE are sent uncompressed (allowed by the protocol)')
+    ctx.assume('the locally installed compression libraries are represented by the entries of '
+               'cassandra.connection.locally_supported_compressions (lz4: stub package; snappy: literal-only stand-in) and '
+               'segment_codec_lz4 (None when lz4 is not installed)')
     ctx.assume('errors in reply to AUTH_RESPONSE/CREDENTIALS other than bad-credentials, a bad-credentials error to OPTIONS/STARTUP, '
                'an authenticator rejecting a challenge, and a v1 credentials dict used on v2+ may surface as either error class')
 
@@ -454,7 +622,7 @@ def run(ctx):
 def replay(ctx, data):
     connlib.quiet_driver_logs()
     part = Part()
-    cfg = (data['version'], data['auth'], data['compression'])
+    cfg = (data['version'], data['auth'], data['compression'], tuple(data.get('local', ('lz4',))))
     seq = tuple(r for r in data['replies'] if r != '<probe>')
     run = play(cfg, seq)
     try:
